@@ -22,7 +22,7 @@ def main(tier, args):
                    plain_srcs=[vf.VERIF + "/engine/sched/log_stub.cpp"])
     # nmax nodes, depth of root-call sequences, cross-check (plain enumeration of all sequences) up to xn nodes / xd calls,
     # caps of the history counters in the state key, max number of non-ok modules in trees with exactly nmax nodes (0 = no limit)
-    nmax, depth, xn, xd, capf, capc, maxdev, dl, parts = (4, 8, 3, 3, 2, 1, 0, 240, 16) if tier == "quick" else (5, 10, 3, 5, 2, 1, 3, 1300, 64)
+    nmax, depth, xn, xd, capf, capc, maxdev, dl, parts = (4, 12, 3, 3, 2, 1, 0, 240, 16) if tier == "quick" else (5, 12, 3, 5, 3, 2, 3, 600, 64)
     res = vf.Result()
     log = open(vf.BUILD + "/C11/log.txt", "w")
     cmds = [("part%02d" % k, [exe, "bfs", str(nmax), str(depth), str(k), str(parts), str(xn), str(xd), str(capf), str(capc), str(maxdev)]) for k in range(parts)]
@@ -42,7 +42,7 @@ def main(tier, args):
                    "{ok, init hook fails always, start hook fails always, init hook fails on its first call only, start hook fails on its first call only, "
                    "own config section missing (named nodes)}%s x attach variant {add(child,required) top-down; addAs(child,name[,false]) from a temporary "
                    "name with the default-argument overload for required children, sub-trees attached bottom-up; for trees <%d nodes also add(child[,false]) "
-                   "bottom-up and addAs top-down} (programs rejected by the real add() skipped; after every build a re-add of an attached child and a "
+                   "bottom-up and addAs top-down} (modes below a module that can never initialise fixed to ok; programs rejected by the real add() skipped; after every build a re-add of an attached child and a "
                    "second module with a sibling's name must be refused, after every root call that leaves the root initialised an add() on it must be refused); "
                    "per program BFS over all root call sequences over {initialize,start,stop,cleanup} of length<=%d with canonical-state "
                    "dedup (state_ of every node + per-node hook automaton + reference-model state + first-call counters + counters of failed initialize passes "
